@@ -96,6 +96,7 @@ class HashFileDB(ObjectDB):
                 except (ObjectFormatError, FileNotFoundError):
                     pass
 
+        errors: list[tuple[str, BaseException]] = []
         transferred = super().add(
             paths,
             fs,
@@ -103,9 +104,19 @@ class HashFileDB(ObjectDB):
             hardlink=hardlink,
             callback=callback,
             check_exists=check_exists,
-            on_error=on_error,
+            on_error=lambda o, exc: errors.append((o, exc)),
             **kwargs,
         )
+        for o, exc in errors:
+            # NOTE: another writer may have added (and write-protected) the
+            # object after we have checked for it, in which case linking or
+            # copying over it is refused. The object being there is all we
+            # wanted, so that is not an error.
+            if isinstance(exc, PermissionError) and self.exists(o):
+                continue
+            if on_error is None:
+                raise exc
+            on_error(o, exc)
 
         oid_cache_paths = {o: self.oid_to_path(o) for o in oids}
         for o, cache_path in oid_cache_paths.items():
